@@ -174,7 +174,7 @@ def run(rep, tier, pool, variants=("shipped",)):
             rep.known("KF-C08-lone-cr", f"lone CR: {o2.get('kind') if isinstance(o2, dict) else o2} on {short(src_min, 30)}")
             continue
         _ls = src_min.split("\n")
-        if isinstance(o2, dict) and o2.get("kind") == "logical-line-without-newline" and len(_ls) >= 2 and _ls[-1].strip().startswith("#") and _ls[-2].rstrip("\r").endswith("\\"):
-            rep.known("KF-C08-continuation-into-final-comment", f"no NEWLINE when a backslash continuation runs into a final comment line without newline: {short(src_min, 30)}")
+        if isinstance(o2, dict) and o2.get("kind") in ("logical-line-without-newline", "newline-without-significant-token") and len(_ls) >= 2 and (_ls[-1].strip().startswith("#") or not _ls[-1].strip()) and _ls[-2].rstrip("\r").endswith("\\"):
+            rep.known("KF-C08-continuation-into-final-comment", f"a backslash continuation runs into a final comment/blank line without newline: NEWLINE missing or without a significant token: {short(src_min, 30)}")
             continue
         rep.violation(f"C08 {o.get('kind')}: {short(o2, 140)} on {short(src_min, 60)}", {"property": "C08", "input": src_min, "original_input": src if len(src) < 5000 else src[:5000], "observed": o2, "oracle": "tiling predicate vs source text"})
